@@ -57,30 +57,35 @@ MUTANTS = [
 ]
 
 
+def prepare_copy(scratch: str):
+    """rsync /repo (without target/.git) and the harness crate into `scratch`; returns Ctx."""
+    os.makedirs(scratch, exist_ok=True)
+    repo = os.path.join(scratch, "repo")
+    harness = os.path.join(scratch, "harness")
+    target = os.path.join(scratch, "target")
+    subprocess.run(["rsync", "-a", "--delete", "--exclude", "target", "--exclude", ".git", vd.REPO + "/", repo + "/"], check=True)
+    shutil.rmtree(harness, ignore_errors=True)
+    shutil.copytree(os.path.join(vd.ROOT, "harness"), harness, ignore=shutil.ignore_patterns("target"))
+    ct = os.path.join(harness, "Cargo.toml")
+    s = open(ct).read().replace('path = "/repo"', f'path = "{repo}"')
+    open(ct, "w").write(s)
+    return vd.Ctx(repo=repo, harness_dir=harness, target_root=target)
+
+
 def main(only: str | None, tier: str, jobs: int) -> int:
-    os.makedirs(SCRATCH, exist_ok=True)
-    repo = os.path.join(SCRATCH, "repo")
-    harness = os.path.join(SCRATCH, "harness")
-    target = os.path.join(SCRATCH, "target")
     results = []
     try:
         for name, prop, flt, file, old, new in MUTANTS:
             if only and only not in name and only != prop:
                 continue
-            subprocess.run(["rsync", "-a", "--delete", "--exclude", "target", "--exclude", ".git", vd.REPO + "/", repo + "/"], check=True)
-            shutil.rmtree(harness, ignore_errors=True)
-            shutil.copytree(os.path.join(vd.ROOT, "harness"), harness, ignore=shutil.ignore_patterns("target"))
-            ct = os.path.join(harness, "Cargo.toml")
-            s = open(ct).read().replace('path = "/repo"', f'path = "{repo}"')
-            open(ct, "w").write(s)
-            p = os.path.join(repo, file)
+            ctx = prepare_copy(SCRATCH)
+            p = os.path.join(ctx.repo, file)
             src = open(p).read()
             if src.count(old) != 1:
                 print(f"selftest {name}: pattern occurs {src.count(old)} times in {file} -- mutant not applicable")
                 results.append((name, prop, "not-applicable"))
                 continue
             open(p, "w").write(src.replace(old, new))
-            ctx = vd.Ctx(repo=repo, harness_dir=harness, target_root=target)
             t0 = time.time()
             rc = vd.check_property(prop, tier, flt, jobs, ctx=ctx, write_evidence=False)
             verdict = "caught" if rc == 1 else f"MISSED(rc={rc})"
@@ -92,3 +97,50 @@ def main(only: str | None, tier: str, jobs: int) -> int:
     for r in results:
         print("  ", *r)
     return 0 if results and all(r[2] == "caught" for r in results) else 1
+
+
+def seedtest(only: str | None, tier: str, jobs: int) -> int:
+    """Run the owning property's check against every seeded change under /verif/seeded/<id>/
+    (patch applied to a scratch copy of /repo; /repo itself is never touched). A seed may
+    carry `check.json` = {"runs": [{"tier": .., "only": ..}, ...]} naming the runs to try;
+    default: the quick tier of the property."""
+    import json
+    scratch = "/tmp/verif-seedtest"
+    root = os.path.join(vd.ROOT, "seeded")
+    rows = []
+    try:
+        for sid in sorted(os.listdir(root)):
+            d = os.path.join(root, sid)
+            if not os.path.isdir(d) or (only and only not in sid):
+                continue
+            meta = json.load(open(os.path.join(d, "meta.json")))
+            prop = meta["property"]
+            runs = [{"tier": "quick", "only": None}]
+            cj = os.path.join(d, "check.json")
+            if os.path.exists(cj):
+                runs = json.load(open(cj))["runs"]
+            if prop not in __import__("catalog").PROPERTIES:
+                rows.append((sid, prop, "-", "not claimed (not_applicable)"))
+                continue
+            for run in runs:
+                if tier == "quick" and run["tier"] != "quick":
+                    continue
+                ctx = prepare_copy(scratch)
+                r = subprocess.run(["git", "apply", "--directory", ctx.repo.lstrip("/"), "--unsafe-paths", os.path.join(d, "patch.diff")],
+                                   cwd="/", capture_output=True, text=True)
+                if r.returncode != 0:
+                    r = subprocess.run(["patch", "-p1", "-d", ctx.repo, "-i", os.path.join(d, "patch.diff")], capture_output=True, text=True)
+                if r.returncode != 0:
+                    rows.append((sid, prop, str(run), "patch does not apply: " + (r.stderr or r.stdout)[-200:]))
+                    continue
+                t0 = time.time()
+                rc = vd.check_property(prop, run["tier"], run.get("only"), jobs, ctx=ctx, write_evidence=False)
+                verdict = {0: "MISSED (exit 0)", 1: "CAUGHT (VIOLATION, replayed natively)", 2: "inconclusive (exit 2)", 3: "not decided (exit 3)"}[rc]
+                print(f"seedtest {sid} [{prop}] tier={run['tier']} only={run.get('only')}: {verdict} in {time.time() - t0:.0f}s", flush=True)
+                rows.append((sid, prop, f"tier={run['tier']} only={run.get('only')}", verdict))
+    finally:
+        shutil.rmtree(scratch, ignore_errors=True)
+    print("seedtest summary:")
+    for r in rows:
+        print("  ", " | ".join(r))
+    return 0
